@@ -27,6 +27,9 @@ func recordCtor(c CtorCase, info CtorInfo) {
 func recordConc(c ConcCase, info ConcInfo) {
 	vstat.For(prop).Case(true, vstat.Hash(c)^0x1b873593, func() any { return c }, info.Classes()...)
 	vstat.For(prop).AddExtra("concurrent_arrange_calls", info.Arranged)
+	if info.Late && info.LateRaced {
+		vstat.For(prop).AddExtra("concurrent_arrange_free_calls_completed_after_the_first_available_call_began", info.AfterOps)
+	}
 }
 
 // ---------------------------------------------------------------------------------------------
@@ -698,6 +701,26 @@ var concGen = rapid.Custom(func(t *rapid.T) ConcCase {
 	c.Keep = rapid.IntRange(0, c.Hold).Draw(t, "keep")
 	c.Iters = rapid.IntRange(50, vstat.Pick(400, 1500)).Draw(t, "iters")
 	c.Yield = rapid.Bool().Draw(t, "yield")
+	// half of the cases: the allocator under test is a reopen of bytes with a history, and/or its first Available() call is
+	// made by an observer while the workers are allocating and freeing (free running, or with the interleaving forced
+	// through the storage: a header read made during that call is parked while the workers go on)
+	switch mode := rapid.IntRange(0, 7).Draw(t, "mode"); {
+	case mode < 4:
+	default:
+		if mode != 4 { // several segments, some of their blocks allocated before the reopen
+			c.Segs = rapid.IntRange(2, 4).Draw(t, "segsReopened")
+			cnt := c.Segs * c.BS * 8
+			c.Pre = rapid.OneOf(rapid.Just(cnt), rapid.Just(cnt-cnt/c.Segs+1), rapid.IntRange(cnt/2, cnt), rapid.IntRange(1, cnt)).Draw(t, "pre")
+			c.PreFree = rapid.SampledFrom([]int{0, 2, 3, 5}).Draw(t, "preFree")
+		}
+		if rapid.IntRange(0, 5).Draw(t, "late") > 0 {
+			c.Late = rapid.OneOf(rapid.IntRange(1, 4), rapid.IntRange(1, 60)).Draw(t, "lateAfter")
+			if c.Segs >= 2 && rapid.Bool().Draw(t, "park") {
+				c.ParkSeg = rapid.IntRange(1, c.Segs-1).Draw(t, "parkSeg")
+				c.ParkOps = rapid.IntRange(1, 16).Draw(t, "parkOps")
+			}
+		}
+	}
 	return c
 })
 
